@@ -198,10 +198,13 @@ def run(ctx):
         class Deep:
             quick, seed, tier, work, replay, prop = False, ctx.seed, ctx.tier, ctx.work, ctx.replay, ctx.prop
         stacks, cases = gen(Deep)
+        deepened = True
     else:
         stacks, cases = gen(ctx)
     corr = evaluate(ctx, stacks, cases, ["dbg", "rel"])
     tie.merge(corr)
+    if locals().get("deepened"):
+        corr.info["deepened"] = True
     return corr
 
 
